@@ -83,7 +83,7 @@ CLAIMS['C15'] = {
 }
 CLAIMS['C16'] = {
   'text': 'Proof of guard obligations: with the program protected (and not in run mode for memory access) Program.store_line/list_lines/save(B,A)/edit/merge, Memory.peek_/poke_/bload_/bsave_ and CHAIN MERGE raise Illegal function call before any collaborator '
-          '(files, lister, tokeniser, console, code stream, memory) is touched - EDIT shows the digits of the line number only; the protection flag byte can be cleared only through the guarded POKE path with allow_protect.',
+          '(files, lister, tokeniser, console, code stream, memory) is touched - EDIT shows the digits of the line number only; the protection flag byte can be cleared only through the guarded POKE path with allow_protect; the DRAW/PLAY macro parser resolves an embedded VARPTR$ pointer (all 2^24 pointers) only through DataSegment.get_value_for_varptrstr and touches memory in no other way.',
   'note': _TB + 'Collaborators are recording spies; entry points are the list read off the code - a new disclosing entry point would not be seen; behavioural equivalence of the protected program is not covered.',
 }
 
@@ -92,19 +92,19 @@ CLAIMS['C25'] = {
           'RandomFile.get takes the L bytes at (n-1)*L or zeros at/after the end, writes nothing; lof/loc; Files._check_pos raises Bad record number exactly outside 1..2^25. '
           'Record length, record numbers and file length are unbounded symbolic integers. '
           'Contents byte for byte (concrete record and file lengths on a grid, symbolic file and field bytes, the real FieldFile.get_buffer/set_buffer): after PUT n the file is the old file, zero-extended, with exactly record n replaced, and every GET m returns record m (the bytes PUT for m = n; zeros beyond the end or for the missing tail of a partial record).',
-  'note': _TB + 'In the offset tasks the host file is a stand-in of symbolic length with logged accesses and FieldFile by assumed contract; in the contents tasks lengths are case parameters. Locks by assumed contract; float rounding of the record number abstracted (C03). One defect found and fixed.',
+  'note': _TB + 'In the offset tasks the host file is a stand-in of symbolic length with logged accesses and FieldFile by assumed contract; in the contents tasks lengths are case parameters. Locks by assumed contract; float rounding of the record number abstracted (C03). Two defects found and fixed (POKE 1050, PEEK(1052); a head pointer below the ring).',
 }
 
 CLAIMS['C37'] = {
   'text': 'Proof over an enumerated state structure with symbolic key contents: KeyboardBuffer.append/getc/peek behave as a FIFO limited to 15 waiting keys (further keys dropped with a tone), '
-          'the head/tail pointers and the 16 ring slots mirror the waiting keys for every ring alignment, POKE 1050, PEEK(1052) empties the buffer, and ring_set_boundaries(a, b) for all 256 pointer pairs leaves exactly the slots between head and tail waiting with ring memory unchanged.',
+          'the head/tail pointers and the 16 ring slots mirror the waiting keys for every ring alignment, POKE 1050, PEEK(1052) empties the buffer, and ring_set_boundaries(a, b) for all 256 pointer pairs leaves exactly the slots between head and tail waiting with ring memory unchanged (pointers outside the ring wrap around); Keyboard._key_down delivers every key press to the buffer as exactly one keystroke for every scancode and modifier set, except Alt+keypad digits, which are collected and delivered on releasing Alt.',
   'note': _TB + 'State structure (consumed entries 16..47, waiting keys 0..16) is enumerated, contents symbolic; the code depends on the consumed count only through its value mod 16 (assumption). Keyboard plumbing and the address arithmetic in machine.Memory are not covered. One defect found and fixed.',
 }
 
 CLAIMS['C14'] = {
   'text': 'Proof of the core only: Program.renum builds the old->new map (lines from `old` onward get new, new+step, ... in order), accepts exactly when no kept line would be overwritten and no number exceeds 65529, rewrites the line-number fields and rebuilds the table; '
           'Interpreter.renum_ makes an active ON ERROR trap and every event trap follow their lines (lines outside the range keep their number) and lets only Illegal function call escape. new/old/step symbolic over 4 concrete program shapes.',
-  'note': _TB + 'NOT proved: the token-stream scan that rewrites GOTO/GOSUB/THEN/... references inside the byte code, and behavioural equivalence of the renumbered program. One defect found and fixed (KeyError for a trap line outside the range).',
+  'note': _TB + 'Also checked on the real code: BasicEvents.reset lists every handler that can hold a trap line (all KEY slots included) in `all`, which renum_ walks; Tokeniser.tokenise_line stores exactly the line-number references of 27 concrete lines (GOTO/GOSUB/THEN/ELSE/ON../RESTORE/RUN/RESUME/ON ERROR/ON KEY/ON TIMER, ERL compared with each of = <> < > <= >=, LIST/DELETE/EDIT ranges) as line-number tokens and no other number (concrete inputs: a test of the current source, not a proof over all lines). NOT proved: the token-stream scan that rewrites the references inside the byte code, and behavioural equivalence of the renumbered program. One defect found and fixed (KeyError for a trap line outside the range).',
 }
 
 CLAIMS['C11'] = {
@@ -121,9 +121,9 @@ CLAIMS['C40'] = {
 
 CLAIMS['C01'] = {
   'text': 'Proof of per-function exception contracts only ("only BASICError / Break / Exit / Reset leave this function"): the error funnel Implementation._handle_exceptions/_handle_error, '
-          'the value layer swept over every operand type pairing that involves a string (binary operators) and every unary conversion/string function over all four types with symbolic contents, and PEEK on a Memory built with the documented default peek_values=None; '
+          'the value layer swept over every operand type pairing that involves a string (binary operators) and every unary conversion/string function over all four types with symbolic contents, PEEK on a Memory built with the documented default peek_values=None, Interpreter._handle_break for every error position, and the C44 clock contracts; '
           'plus the exception obligations inside the other claimed properties. The whole-program statement (all programs, all inputs, all files) is NOT decided by this technique.',
-  'note': _TB + 'The statement parser, tokeniser, device layers and callbacks without a contract are not covered. Seven internal-error defects were found through these and the other contracts and fixed (PEEK default, TIME$, ENVIRON, RENUM, empty protected file, IMP with a string, HEX$ of values below -65536).',
+  'note': _TB + 'The statement parser, tokeniser, device layers and callbacks without a contract are not covered. BOUNDED, not proved: 28 literal direct-mode statements (PEEK/POKE/OUT/VARPTR/BSAVE/BLOAD boundary arguments) and 20 literal tokenised/protected program files (truncated tokens, oversize) are run through a real Session with default arguments. Twelve internal-error defects were found through these and the other contracts and fixed (PEEK default, TIME$, ENVIRON, RENUM, empty protected file, IMP with a string, HEX$ of values below -65536, OUT to the EGA plane registers in text mode, PEEK/POKE between FIELD buffers, VARPTR(#string), LIST of a truncated number token, LOAD of an oversize file).',
 }
 
 CLAIMS['C18'] = {
@@ -188,7 +188,7 @@ CLAIMS['C41'] = {
 
 CLAIMS['C34'] = {
   'text': 'Proof, for every graphics mode row of display/modes.py and video memory sizes 16K-256K: the address maps of CGAMemoryMapper/EGAMemoryMapper/Tandy6MemoryMapper (_get_coords, _coord_ok, num_pages) are the inverse of the reference hardware layout in both directions (every on-screen pixel group is backed by exactly one byte per plane; an address backs content iff its coordinates lie on an existing page); GraphicsMemoryMapper._walk_memory is verified by loop invariant for all addresses and all block lengths: an arbitrary iteration emits exactly the chunk (decode(addr+ofs), ofs, length) iff that position backs content, every unit i of the chunk decodes to the i-th pixel group to the right on the same scan line, chunks are non-empty, stay inside the block, the variant decreases and the walk ends at the end of the block - so block access maps every byte exactly as byte access does; Memory._get_memory_block/_set_memory_block split a block into the part inside the 128 KiB video area and single-byte accesses at the right addresses (address symbolic over 1 MiB, lengths 0,1,2,5).',
-  'note': _TB + 'BOUNDED, not proved: the composition with ByteMatrix (get_memory/set_memory block = bytes) is only sampled natively (12/120 blocks per mode). Text modes (TextMemoryMapper) and pixel packing are not covered. Two defects found by these contracts were repaired in /repo (fix: commits 9fc0ff8a, 3336dfac).',
+  'note': _TB + 'Also proved: text modes (TextMemoryMapper.get_memory/set_memory by loop contract over all addresses and block lengths against a logging text page: byte i is the character/attribute of the cell at addr+i, 0/ignored where no content is backed); pixel packing (bytematrix.unpack_bytes/pack_bytes, leftmost pixel in the highest bits, mutually inverse); for the CGA and EGA mappers the step from one chunk of the walk to byte values (get_memory) and to pixel values (set_memory: exactly the chunk's pixels, on EGA exactly the bits of the writable planes selected by the plane mask; every plane of the mode writable) with real ByteMatrix row operations; the mapper is built by the real mode constructor. BOUNDED, not proved: block = bytes through a real ByteMatrix display (12/120 sampled blocks per mode), which is the only coverage of ByteMatrix slicing and of Tandy SCREEN 6 chunk-to-byte composition. Three defects found by these contracts were repaired in /repo (fix: commits 9fc0ff8a, 3336dfac, 0d9ac272).',
 }
 
 CLAIMS['C33'] = {
@@ -203,27 +203,27 @@ CLAIMS['C13'] = {
 
 CLAIMS['C10'] = {
   'text': 'Per-operation proof on the real StringSpace.store/_delete_last/collect_garbage/fix_temporaries/reset_temporaries/is_permanent and DataSegment._collect_garbage/check_free/_get_free/hold_garbage/get_stack with the real Scalars and Arrays: after a collection every live scalar, array element, stack temporary and program-literal string reads back the same bytes (contents symbolic), string space holds exactly the live strings packed below the stack, the allocation pointer and FRE equal memory - stack - program - variables - arrays - live string bytes, a second collection moves nothing; check_free raises exactly when the free space after a collection is not more than the request (request size symbolic) and collects only when needed; store adds one string below all others and moves nothing else; temporaries stay temporary and permanents permanent across a collection and is_permanent never fails; hold_garbage/get_stack restore their state also when the body raises. Two defects found by these contracts were repaired in /repo.',
-  'note': _TB + 'Memory layouts (allocation order, lengths, live/garbage/temporary/literal/array) are case parameters (12 layouts); operation histories are covered only through induction over the per-operation contracts, not explored as sequences; FIELD strings, ERASE compaction and Out of memory part-way through an assignment are not covered.',
+  'note': _TB + 'Memory layouts (allocation order, lengths, live/garbage/temporary/literal/array, a variable together with its operand view on the evaluation stack or in temp_values) are case parameters (21 layouts); the MID$ and SWAP statements are checked under memory pressure (collection triggered inside the statement) for enumerated amounts of free space; operation histories are covered only through induction over the per-operation contracts, not explored as sequences; FIELD strings, ERASE compaction and Out of memory part-way through an assignment are not covered.',
 }
 
 CLAIMS['C29'] = {
   'text': 'Proof on the real CassetteStream record framing (write, read, _flush_record_buffer, _close_record_buffer, _fill_record_buffer, open_write/open_read headers, _write_record/_read_record, _write_block/_read_block) over a byte-tape stand-in, contents symbolic: a data/ASCII file written in any of the stated splits, with the NUL terminator CASTextFile.close appends, is framed as full records plus always one final record carrying its count; reading returns exactly the bytes written, consumes exactly this file\'s records and finds the next file next (lengths 0,1,5,253..256,300,508..511,600 - every boundary of the 255-byte record); binary files (B/P/M) read back byte-identical with name, type, segment, offset and length; blocks are padded to 256 bytes, read back as written, and a changed byte is rejected by the CRC comparison. One defect found by this contract (files of 254, 509, ... bytes ran on into the next file) was repaired in /repo.',
-  'note': _TB + 'The bit level (CASBitStream/WAVBitStream pulse encodings, leader/sync detection) is replaced by a byte-tape stand-in and crc() is taken by contract: WAV/CAS encodings themselves are NOT verified. File lengths and write splits are case parameters.',
+  'note': _TB + 'The bit level (CASBitStream/WAVBitStream pulse encodings, leader/sync detection) is replaced by a byte-tape stand-in and crc() is taken by contract: WAV/CAS encodings themselves are NOT verified. File lengths and write splits are case parameters. CASDevice._search: Found exactly for the recorded name equal to the requested name (space padded, symbolic names) and a requested type; OPEN KNOWN FINDING (listed in known_findings.jsonl, replayed on every run): a data file of 164 (mod 255) bytes ends in a record whose count byte is the header marker 0xA5 and is announced as a file of its own when skipped.',
 }
 
 CLAIMS['C31'] = {
   'text': 'LINE, LINE ,B, LINE ,BF and PSET/POINT clauses only (GET/PUT are NOT decided). Proof on the real Graphics._draw_line for ALL endpoint pairs on the screen by loop invariant (line_error = dX div 2 - i*dY + j*dX, 0 <= line_error < dX, discharged with nonlinear integer arithmetic): every iteration stores exactly one pixel at (X0 + sX*i, Y0 + sY*j) in the line attribute, the minor coordinate moves by at most one step (8-connected), the loop runs max(|dx|,|dy|)+1 times at distinct major coordinates, the first pixel is one endpoint and the invariant forces the last pixel onto the other; _draw_straight stores exactly the pixels of its edge (loop invariant), _draw_box issues exactly the four edges, _draw_box_filled stores exactly the rectangle, PSET stores exactly one pixel which POINT reads.',
-  'note': _TB + 'Unclipped screen (640x400 stand-in, no VIEW/WINDOW), solid pattern; the pixel buffer is a recording stand-in behind the viewport interface. GET/PUT round trips, XOR twice and the sprite builders are not under contract. Loop-invariant obligations are auxiliary: if a changed algorithm no longer satisfies the invariant the check reports undecided (exit 2) and relies on the BOUNDED native cross-check (300/5000 sampled endpoint pairs, never counted as proved) to show an actual violation.',
+  'note': _TB + 'Unclipped screen (640x400 stand-in, no VIEW/WINDOW), solid pattern; for the primitives the pixel buffer is a recording stand-in behind the viewport interface; the real GraphicsViewPort is proved to pass on-screen pixels, rows, columns and rectangles through unchanged when no VIEW is set, and Graphics.line_ to hand the right endpoints to the primitives (STEP on the second coordinate relative to the first endpoint; omitted first coordinate = graphics cursor; no WINDOW). GET/PUT round trips, XOR twice and the sprite builders are not under contract. Loop-invariant obligations are auxiliary: if a changed algorithm no longer satisfies the invariant the check reports undecided (exit 2) and relies on the BOUNDED native cross-check (300/5000 sampled endpoint pairs, never counted as proved) to show an actual violation.',
 }
 
 CLAIMS['C08'] = {
   'text': 'Field layer only - the digits themselves are NOT decided (they are decimal conversion, C07, taken by contract as an arbitrary digit string). Proof on the real StringField, NumberField.__init__/format and Formatter._print_using: ! emits the first character (space for an empty string), & the whole string, a backslash field of width w exactly w characters (cut or space-padded), contents symbolic; parsing a number field consumes exactly its specification and yields the declared digit positions, decimals and comma flag (15 specifications covering every token kind); format() asks for fixed or scientific digits with the declared parameters, emits exactly len(field) characters when sign + $ + digits + trailing sign fit, otherwise % followed by the full representation, with the sign placed as the field says, $ directly before the digits, * or space fill on the left, a leading zero before a bare point when there is room, and Illegal function call beyond 24 digit positions - for an arbitrary (symbolic) digit string and sign; _print_using emits values in order with literals and restarts the format string.',
-  'note': _TB + 'The clause "the digits shown equal the value rounded to the field\'s decimal places" is NOT covered (Float.to_str_fixed/to_str_scientific/to_decimal are replaced by an arbitrary digit string). Field specifications, digit-string lengths and string lengths are case parameters.',
+  'note': _TB + 'The clause "the digits shown equal the value rounded to the field\'s decimal places" is NOT covered (Float.to_str_fixed/to_str_scientific/to_decimal are replaced by an arbitrary digit string). Field specifications (21, including sign positions with no digit before the point), digit-string lengths and string lengths are case parameters. BOUNDED, not proved: to_str_fixed/to_str_scientific digit strings sampled against exact rationals to within one unit of the last digit shown (detects a wrong exponent or lost carry, not the rounding of the last digit). One defect found there and fixed (a0bc5534).',
 }
 
 CLAIMS['C07'] = {
   'text': 'PROVED: the literal-reading clause - numbers.str_to_decimal on literals of 16 shapes (digit counts before/after the point, sign, E/D exponent with sign and digits, ! and # sigils) with symbolic digit values returns the mantissa spelled by the digits, exponent = written exponent - fraction digits, and double exactly for a D exponent, a # sigil or more than 7 significant digits without !; Values.from_repr gives an Integer with exactly the value for integer literals in range and otherwise a Single/Double built from exactly those digits; a zero mantissa reads as zero for every exponent (defect found and repaired: VAL("0E5") was 1.469368E-34); Integer.to_str shows every Integer exactly. BOUNDED ONLY, never counted as proved: the two accuracy clauses (shown value within one unit of the last digit shown and at most 7/16 digits; stored value within one unit in the last binary place) are sampled natively against exact rational arithmetic (3000 quick / 60000 thorough values per type and direction).',
-  'note': _TB + 'The conversion loops (Float.to_decimal / from_decimal / _div10_den / _mul10_den) have no invariant in this framework: their accuracy is NOT proved, only sampled. Literal shapes are case parameters.',
+  'note': _TB + 'The conversion loops (Float.to_decimal / from_decimal / _div10_den / _mul10_den) have no invariant in this framework: their accuracy is NOT proved, only sampled. Literal shapes are case parameters. BOUNDED additions: every float within 40 units in the last place of a power of ten is sampled for printing (one defect found and fixed, a0bc5534: doubles just below a power of ten printed ten times too small); literals of 1..20 digits are sampled for reading. OPEN KNOWN FINDING (known_findings.jsonl, replayed on every run): a literal with more significant digits than its type holds is cut off, not rounded (error up to 2.3 units in the last binary place, e.g. 8383286.0 reads as 8383285.5); inside that region the check still enforces 3 units, outside it 1.',
 }
 
 NOT_APPLICABLE = {
